@@ -7,6 +7,7 @@
 From Coq Require Import List NArith ZArith Bool Permutation.
 From BE Require Model.Rr.
 From BE Require Import Model.Scan Model.Build Proofs.ScanProof Proofs.BuildProof Proofs.Glue.
+From BE Require Model.GoVal Model.Parsers Model.Index Model.Roaring Proofs.IndexBuildInv Proofs.IndexCorrect Proofs.AgreeProof Proofs.RoaringProof Gen.IdsGen.
 Import ListNotations.
 Local Open Scope N_scope.
 
@@ -35,6 +36,34 @@ Proof. intros pl pls pls' x HP. rewrite Rr.retrieve_fresh. apply Rr.all_in_perm.
 Theorem C18_refuted_nofields : forall x, Rr.mem x (Rr.res (Rr.retrieve Rr.fresh [])) = false /\ Rr.all_in x [] = true.
 Proof. intros x. split; reflexivity. Qed.
 
+(* over the EXECUTABLE models, for WHATEVER parser each field is configured with (the theorem quantifies
+   over `parsers`; no specification of value shapes enters): the k-groups and the compact index built
+   from the same accepted documents return the same documents for every assignment whose values parse *)
+Theorem C18_kgroups_and_compact_agree : forall pol thr parsers ds stk osk stc osc q,
+  Index.add_documents false (Index.new_builder Index.IKGroups pol thr parsers) ds = (stk, osk) ->
+  Index.add_documents false (Index.new_builder Index.ICompact pol thr parsers) ds = (stc, osc) ->
+  Forall (eq Index.AddOk) osk -> Forall (eq Index.AddOk) osc -> NoDup (map Index.d_id ds) ->
+  (forall d cj, In d ds -> In cj (Index.d_conjs d) -> NoDup (map fst cj)) ->
+  (pol <> Index.PolSkip \/ forall d cj, In d ds -> In cj (Index.d_conjs d) -> IndexBuildInv.conj_ok parsers cj = true) ->
+  NoDup (map fst q) ->
+  (forall f v, In (f, v) q -> exists ids, Parsers.parse_assign (parsers f) v = GoVal.POk ids) ->
+  exists dk dc, Index.retrieve (Index.build_index stk) q = Index.ROk dk /\
+                Index.retrieve (Index.build_index stc) q = Index.ROk dc /\ forall z, In z dk <-> In z dc.
+Proof. exact AgreeProof.kgroups_compact_agree. Qed.
+
+(* the roaring model is exact for the same per-field rule (RoaringProof.field_sat is the very function
+   IndexCorrect.conj_sat uses), for any parser per field *)
+Theorem C18_roaring_exact_for_the_same_rule : forall b0 ds b os q s d k cj x,
+  RoaringProof.all_new (Roaring.rb_conts b0) -> Roaring.rb_conts b0 <> [] ->
+  Roaring.radd_documents b0 ds = (b, os) -> Forall (eq Index.AddOk) os ->
+  NoDup (map Index.d_id ds) -> In d ds -> nth_error (Index.d_conjs d) k = Some cj ->
+  IdsGen.NewConjunctionID (Z.of_nat k) (Index.d_id d) = Some x ->
+  Roaring.sc_retrieve (Roaring.rb_conts b) q Roaring.fresh_scanner = GoVal.POk s ->
+  Roaring.bm_mem x (Roaring.sc_res s) = forallb (RoaringProof.conj_sat_field q cj) (Roaring.rb_conts b).
+Proof. exact RoaringProof.roaring_index_correct. Qed.
+
 Print Assumptions C18_kgroups_any_matcher.
+Print Assumptions C18_kgroups_and_compact_agree.
+Print Assumptions C18_roaring_exact_for_the_same_rule.
 Print Assumptions C18_compact_scan_any_streams.
 Print Assumptions C18_roaring_fold_any_order.
